@@ -36,6 +36,9 @@ SIG1 = b"WithoutFreeSpace"
 SIG2 = b"WithouFreSpacExt"
 
 
+IN_USE = 0x746F6E59          # m_DiskInUse: the image was not closed cleanly; the content it describes is the same
+
+
 def build_header(case):
     ver = case["version"]
     if ver == 1:
@@ -43,7 +46,7 @@ def build_header(case):
     else:
         size_field = struct.pack("<Q", case["size"] // 512)
     return (struct.pack("<16sIIIII", SIG1 if ver == 1 else SIG2, 2, 16, 1024, case["m_sectors"], len(case["bat"])) +
-            size_field + struct.pack("<IIIQ", 0, case["first_block"], 0, 0))
+            size_field + struct.pack("<IIIQ", IN_USE if case.get("in_use") else 0, case["first_block"], 0, 0))
 
 
 def gen_case(rng, tier):
@@ -111,6 +114,7 @@ def gen_case(rng, tier):
     c = {"kind": f"v{ver}", "version": ver, "m_sectors": ms, "size": size, "bat": bat, "first_block": hdr_clusters * ms,
          "file_size": (top + 2) * cs, "place": place, "mode": mode, "salt": rng.randrange(1 << 30)}
     c["reqs"] = gen_requests(rng, size, cs, n=6)
+    c["in_use"] = (c["salt"] & 3) == 0          # m_DiskInUse set (derived from the salt: the random stream is unchanged)
     return c
 
 
